@@ -202,6 +202,18 @@ def bounded(tier, seed, procs):
         if r3 != ("val", exp_c):
             bn.fail(Failure("counts", f"what=cseflops root={type(e).__name__} expr={e!r}", dict(kind="cseflops", expr=trees.src(e)),
                             expected=exp_c, actual=outcome.describe(r3), functions=["CSEAwareFlopCounter.map_common_subexpression"]))
+    # large flat and blocked expressions (more distinct subexpressions than any plausible bound on a memo table), with nodes that recur late
+    N = 150000 if tier == "thorough" else 70000
+    vs_ = [p.Variable(f"v{i}") for i in range(N)]
+    shared = p.Power(p.Sum((vs_[0], 1)), 2)
+    big_flat = p.Sum((*vs_, vs_[0], vs_[1], shared, shared))
+    blocks = p.Sum(tuple(p.Product((vs_[i], shared, p.Subscript(trees.A, vs_[i]))) for i in range(N // 4)))
+    for label, e, want in (("flat", big_flat, N + 1 + 4), ("blocks", blocks, 1 + 3 * (N // 4) + 1 + 4)):      # + root; + Power, its Sum, the constants 1 and 2; + the aggregate
+        r1 = outcome.run(lambda: get_num_nodes(e))
+        bn.case(("nodes-large", label, N), nontrivial=True, sample=dict(shape=label, distinct_nodes=want))
+        if r1 != ("val", want):
+            bn.fail(Failure("counts", f"what=nodes-large shape={label} n={N}", dict(kind="nodes-large", shape=label, n=N), expected=want, actual=outcome.describe(r1)[:100],
+                            functions=["NodeCountMapper.post_visit", "CachedMapper.__call__"]))
     # equal-but-distinct CSE objects
     def mk():
         return p.CommonSubexpression(p.Sum((trees.X, p.Product((trees.Y, 2)))))
